@@ -39,6 +39,62 @@ mod thin {
     impl FungibleBurnable for BaseToken {}
 }
 
+mod thinblock {
+    //! BlockList + burnable: the library's BlockList::burn / burn_from, which no example exposes.
+    use soroban_sdk::{contract, contractimpl, contracttype, Address, Env, MuxedAddress, String};
+    use stellar_tokens::fungible::{blocklist::BlockList, burnable::FungibleBurnable, Base, FungibleToken};
+
+    #[contracttype]
+    pub enum K {
+        Manager,
+    }
+
+    #[contract]
+    pub struct BlockBurnToken;
+
+    fn manager_auth(e: &Env, operator: &Address) {
+        operator.require_auth();
+        let m: Address = e.storage().instance().get(&K::Manager).unwrap();
+        if m != *operator {
+            panic!("not the manager");
+        }
+    }
+
+    #[contractimpl]
+    impl BlockBurnToken {
+        pub fn __constructor(e: &Env, admin: Address, manager: Address, initial_supply: i128) {
+            e.storage().instance().set(&K::Manager, &manager);
+            Base::mint(e, &admin, initial_supply);
+        }
+        pub fn blocked(e: &Env, account: Address) -> bool {
+            BlockList::blocked(e, &account)
+        }
+        pub fn block_user(e: &Env, user: Address, operator: Address) {
+            manager_auth(e, &operator);
+            BlockList::block_user(e, &user)
+        }
+        pub fn unblock_user(e: &Env, user: Address, operator: Address) {
+            manager_auth(e, &operator);
+            BlockList::unblock_user(e, &user)
+        }
+    }
+
+    #[contractimpl(contracttrait)]
+    impl FungibleToken for BlockBurnToken {
+        type ContractType = BlockList;
+    }
+
+    #[contractimpl(contracttrait)]
+    impl FungibleBurnable for BlockBurnToken {
+        fn burn(e: &Env, from: Address, amount: i128) {
+            BlockList::burn(e, &from, amount);
+        }
+        fn burn_from(e: &Env, spender: Address, from: Address, amount: i128) {
+            BlockList::burn_from(e, &spender, &from, amount);
+        }
+    }
+}
+
 const NOW0: u32 = 10;
 const MAX_TTL: u32 = 20;
 const BAD: i64 = -999_999;
@@ -48,6 +104,7 @@ enum Fl {
     Base,
     Allow,
     Block,
+    BlockThin,
     Pausable,
     Capped,
 }
@@ -61,6 +118,7 @@ struct Sys {
     flname: String,
     scale: i128,
     cap: i64,
+    thin: bool,
 }
 
 macro_rules! token_call {
@@ -69,6 +127,7 @@ macro_rules! token_call {
             Fl::Base => { let $cl = thin::BaseTokenClient::new(&$self.e, &$self.c); $body }
             Fl::Allow => { let $cl = allowlist::ExampleContractClient::new(&$self.e, &$self.c); $body }
             Fl::Block => { let $cl = blocklist::ExampleContractClient::new(&$self.e, &$self.c); $body }
+            Fl::BlockThin => { let $cl = thinblock::BlockBurnTokenClient::new(&$self.e, &$self.c); $body }
             Fl::Pausable => { let $cl = pausable::ExampleContractClient::new(&$self.e, &$self.c); $body }
             Fl::Capped => { let $cl = capped::ExampleContractClient::new(&$self.e, &$self.c); $body }
         }
@@ -76,7 +135,7 @@ macro_rules! token_call {
 }
 
 impl Sys {
-    fn new(flname: &str, regime: &str, accts: &[&str], cap: i64) -> Sys {
+    fn new(flname: &str, regime: &str, accts: &[&str], cap: i64, thin: bool) -> Sys {
         let e = new_env(&LedgerCfg { seq: NOW0, min_temp: 1, min_persistent: 1_000_000, max_ttl: MAX_TTL });
         let mut all: Vec<&str> = accts.to_vec();
         all.push("m");
@@ -89,12 +148,13 @@ impl Sys {
         let (fl, c) = match flname {
             "base" => (Fl::Base, e.register(thin::BaseToken, ())),
             "allowlist" => (Fl::Allow, e.register(allowlist::ExampleContract, (nm.clone(), nm.clone(), a.clone(), m.clone(), 2 * scale))),
+            "blocklist" if thin => (Fl::BlockThin, e.register(thinblock::BlockBurnToken, (a.clone(), m.clone(), 2 * scale))),
             "blocklist" => (Fl::Block, e.register(blocklist::ExampleContract, (nm.clone(), nm.clone(), a.clone(), m.clone(), 2 * scale))),
             "pausable" => (Fl::Pausable, e.register(pausable::ExampleContract, (nm.clone(), nm.clone(), a.clone(), 0i128))),
             "capped" => (Fl::Capped, e.register(capped::ExampleContract, ((cap as i128) * scale,))),
             f => panic!("flavour {f}"),
         };
-        Sys { e, names, accts: accts.iter().map(|s| s.to_string()).collect(), c, fl, flname: flname.to_string(), scale, cap }
+        Sys { e, names, accts: accts.iter().map(|s| s.to_string()).collect(), c, fl, flname: flname.to_string(), scale, cap, thin }
     }
 
     fn units(&self, v: i128) -> Value {
@@ -125,6 +185,7 @@ impl Sys {
             let l = match self.fl {
                 Fl::Allow => allowlist::ExampleContractClient::new(e, &self.c).allowed(&aa),
                 Fl::Block => blocklist::ExampleContractClient::new(e, &self.c).blocked(&aa),
+                Fl::BlockThin => thinblock::BlockBurnTokenClient::new(e, &self.c).blocked(&aa),
                 _ => false,
             };
             listed.insert(a.clone(), json!(l));
@@ -192,6 +253,7 @@ impl Sys {
                     Fl::Base => res_of(&thin::BaseTokenClient::new(e, &c).try_burn(&f, &amt)),
                     Fl::Allow => res_of(&allowlist::ExampleContractClient::new(e, &c).try_burn(&f, &amt)),
                     Fl::Pausable => res_of(&pausable::ExampleContractClient::new(e, &c).try_burn(&f, &amt)),
+                    Fl::BlockThin => res_of(&thinblock::BlockBurnTokenClient::new(e, &c).try_burn(&f, &amt)),
                     _ => return None,
                 }
             }
@@ -202,6 +264,7 @@ impl Sys {
                     Fl::Base => res_of(&thin::BaseTokenClient::new(e, &c).try_burn_from(&sp, &f, &amt)),
                     Fl::Allow => res_of(&allowlist::ExampleContractClient::new(e, &c).try_burn_from(&sp, &f, &amt)),
                     Fl::Pausable => res_of(&pausable::ExampleContractClient::new(e, &c).try_burn_from(&sp, &f, &amt)),
+                    Fl::BlockThin => res_of(&thinblock::BlockBurnTokenClient::new(e, &c).try_burn_from(&sp, &f, &amt)),
                     _ => return None,
                 }
             }
@@ -233,6 +296,12 @@ impl Sys {
                         let cl = allowlist::ExampleContractClient::new(e, &c);
                         if kind == "list" { res_of(&cl.try_allow_user(&user, &operator)) } else { res_of(&cl.try_disallow_user(&user, &operator)) }
                     }
+                    Fl::BlockThin => {
+                        let f = if kind == "list" { "block_user" } else { "unblock_user" };
+                        set_auth_same(e, &who, &Inv::new(&c, f, args(e, (user.clone(), operator.clone()))));
+                        let cl = thinblock::BlockBurnTokenClient::new(e, &c);
+                        if kind == "list" { res_of(&cl.try_block_user(&user, &operator)) } else { res_of(&cl.try_unblock_user(&user, &operator)) }
+                    }
                     Fl::Block => {
                         let f = if kind == "list" { "block_user" } else { "unblock_user" };
                         set_auth_same(e, &who, &Inv::new(&c, f, args(e, (user.clone(), operator.clone()))));
@@ -249,13 +318,13 @@ impl Sys {
     }
 
     fn reset_event(&self, regime: &str) -> Value {
-        json!({"op": {"op": "reset", "flavour": self.flname, "regime": regime, "cap": self.cap, "owner": "a",
+        json!({"op": {"op": "reset", "flavour": self.flname, "regime": regime, "cap": self.cap, "owner": "a", "impl": if self.thin { "thin" } else { "example" },
                       "from": "none", "to": "none", "sp": "none", "amt": 0, "until": 0, "auth": [], "k": 0},
                "now": NOW0, "res": "ok", "err": 0, "obs": self.obs(), "evs": []})
     }
 }
 
-const FLAVOURS: [&str; 5] = ["base", "allowlist", "blocklist", "pausable", "capped"];
+const FLAVOURS: [&str; 6] = ["base", "allowlist", "blocklist", "pausable", "capped", "blockthin"];
 
 fn main() {
     match cli() {
@@ -265,7 +334,8 @@ fn main() {
                 let fl = b.cfg.get("flavour").and_then(|v| v.as_str()).unwrap_or("base").to_string();
                 let regime = b.cfg.get("regime").and_then(|v| v.as_str()).unwrap_or("S").to_string();
                 let cap = b.cfg.get("cap").and_then(|v| v.as_i64()).unwrap_or(3);
-                let mut sys = Sys::new(&fl, &regime, &["a", "b", "c"], cap);
+                let thin = b.cfg.get("impl").and_then(|v| v.as_str()) == Some("thin");
+                let mut sys = Sys::new(&fl, &regime, &["a", "b", "c"], cap, thin);
                 t.reset(sys.reset_event(&regime));
                 for op in &b.ops {
                     if let Some(ev) = sys.step(op) {
@@ -281,9 +351,10 @@ fn main() {
             let accts = ["a", "b", "c", "d"];
             for run in 0..runs {
                 let fl = FLAVOURS[run % FLAVOURS.len()];
+                let (fl, thin) = if fl == "blockthin" { ("blocklist", true) } else { (fl, false) };
                 let regime = if (run / FLAVOURS.len()) % 3 == 2 { "O" } else { "S" };
                 let cap = if regime == "O" { 6 } else { *pick(&mut r, &[3i64, 5, 9]) };
-                let mut sys = Sys::new(fl, regime, &accts, cap);
+                let mut sys = Sys::new(fl, regime, &accts, cap, thin);
                 t.reset(sys.reset_event(regime));
                 let amts: Vec<i64> = if regime == "O" { vec![0, 1, 1, 2, 3, 5, 6, 7, 7, -1] } else { vec![-1, 0, 1, 1, 2, 2, 3, 4, 7] };
                 let mut holders: Vec<&str> = vec![];
@@ -307,6 +378,7 @@ fn main() {
                         Fl::Base => &["mint", "mint", "transfer", "transfer", "transfer_from", "transfer_from", "approve", "approve", "burn", "burn_from", "advance"],
                         Fl::Allow => &["list", "list", "unlist", "transfer", "transfer", "transfer_from", "approve", "approve", "burn", "burn_from", "advance"],
                         Fl::Block => &["list", "unlist", "transfer", "transfer", "transfer", "transfer_from", "approve", "approve", "advance"],
+                        Fl::BlockThin => &["list", "unlist", "transfer", "transfer", "transfer_from", "approve", "approve", "burn", "burn", "burn_from", "burn_from", "advance"],
                         Fl::Pausable => &["mint", "mint", "transfer", "transfer", "transfer_from", "approve", "burn", "burn_from", "pause", "unpause", "advance"],
                         Fl::Capped => &["mint", "mint", "mint", "transfer", "transfer", "transfer_from", "approve", "advance"],
                     };
